@@ -1,12 +1,14 @@
 (* C08 — the codecs of the configuration types that implement json.Marshaler / json.Unmarshaler,
    as an instance of the schema model's codec table.
 
-   Oracles (Section variables; the driver exercises them on the real code in every run):
-     net6_print / net6_parse   text form of IPv6 networks (net.IPNet.String, net.ParseCIDR/ParseIP)
+   Oracle (Section variable; the driver ships its values per case):
      cred_valid                Credential.validate (two regexps and argon2.Decode)
-     track_enc / track_dec     AlwaysAvailableTrack (alias struct + per-codec validation) *)
+
+   Modelled here: IP networks of both families (C08_Scalars / C08_Net6), AlwaysAvailableTrack
+   (always_available_track.go: no MarshalJSON, so the plain struct encoding; UnmarshalJSON = jsonwrapper
+   on the alias struct followed by validate()). *)
 From Coq Require Import List ZArith Bool.
-Require Import MTX.Lib.IntWrap MTX.Lib.Utf8 MTX.Model.C08_Scalars MTX.Model.C08_Schema.
+Require Import MTX.Lib.IntWrap MTX.Lib.Utf8 MTX.Model.C08_Scalars MTX.Model.C08_Net6 MTX.Model.C08_Schema.
 Import ListNotations.
 Local Open Scope Z_scope.
 
@@ -16,53 +18,119 @@ Inductive codec :=
 
 Definition known_codec (c : codec) : bool := match c with CUnknown _ => false | _ => true end.
 
-Section Oracles.
-  Variable net6 : Type.
-  Variable net6_print : net6 -> list Z.
-  Variable net6_parse : list Z -> option net6.
-  Variable cred_valid : list Z -> bool.
-  Variable track : Type.
-  Variable track_enc : track -> json.
-  Variable track_dec : json -> option track.
+Inductive cval :=
+| XDur (d : Z) | XSize (n : Z) | XNet4 (ip : list Z) (ones : Z) | XNet6 (ip : list Z) (ones : Z) | XCred (s : list Z)
+| XEnum (v : eval) | XTrans (p : pset)
+| XTrack (tcodec : list Z) (rate chans : Z) (mulaw : bool)
+| XUnknown.
 
-  Inductive cval :=
-  | XDur (d : Z) | XSize (n : Z) | XNet4 (ip : list Z) (ones : Z) | XNet6 (x : net6) | XCred (s : list Z)
-  | XEnum (v : eval) | XTrans (p : pset) | XTrack (x : track) | XUnknown.
+(* Go zero values: int-based enums are 0, string-based ones "", RTSPTransport a nil protocol *)
+Definition enum_zero (e : enum_id) : eval :=
+  match e with
+  | ELogLevel | ELogDestination | EHLSVariant | ERTSPAuthMethod => EInt 0
+  | ERTSPTransport => ENone
+  | _ => EStr []
+  end.
+
+Definition czero (c : codec) : cval :=
+  match c with
+  | CDur => XDur 0 | CSize => XSize 0 | CNet => XNet4 [] 0 | CCred => XCred [] | CEnum e => XEnum (enum_zero e)
+  | CTransports => XTrans (false, false, false) | CTrack => XTrack [] 0 0 false | CUnknown _ => XUnknown
+  end.
+
+(* ---- AlwaysAvailableTrack: the struct the alias type exposes to encoding/json and to jsonwrapper.
+   The translator reflects the real struct into MTXGen.C08_ConfSchema.track_ty; C08_schema_facts proves
+   that it is this term. *)
+Definition s_codec := [99;111;100;101;99].
+Definition s_sampleRate := [115;97;109;112;108;101;82;97;116;101].
+Definition s_channelCount := [99;104;97;110;110;101;108;67;111;117;110;116].
+Definition s_muLaw := [109;117;76;97;119].
+Definition int64_lo := -9223372036854775808.
+Definition int64_hi := 9223372036854775807.
+
+Definition track_ty_model : ty codec :=
+  TStruct [(s_codec, false, TString); (s_sampleRate, false, TInt int64_lo int64_hi);
+           (s_channelCount, false, TInt int64_lo int64_hi); (s_muLaw, false, TBool)].
+
+Definition s_AV1 := [65;86;49].
+Definition s_VP9 := [86;80;57].
+Definition s_H265 := [72;50;54;53].
+Definition s_H264 := [72;50;54;52].
+Definition s_MPEG4Audio := [77;80;69;71;52;65;117;100;105;111].
+Definition s_Opus := [79;112;117;115].
+Definition s_G711 := [71;55;49;49].
+Definition s_LPCM := [76;80;67;77].
+
+(* AlwaysAvailableTrack.validate *)
+Definition track_valid (c : list Z) (rate chans : Z) : bool :=
+  if one_of c [s_AV1; s_VP9; s_H265; s_H264; s_Opus] then (rate =? 0) && (chans =? 0)
+  else if str_eqb c s_MPEG4Audio then negb (rate =? 0) && negb (rate <? 22050) && negb (chans =? 0)
+  else if one_of c [s_G711; s_LPCM] then negb (rate =? 0) && negb (rate <? 8000) && negb (chans =? 0)
+  else false.
+
+(* the track's fields hold no codec type: any table does *)
+Definition track_enc (c : list Z) (rate chans : Z) (mulaw : bool) : json :=
+  enc codec cval (fun _ _ => JNull) track_ty_model (VStruct [VStr c; VInt rate; VInt chans; VBool mulaw]).
+
+Definition track_dec (j : json) : option cval :=
+  match dec codec cval (fun _ _ => None) czero track_ty_model j with
+  | Some (VStruct [VStr c; VInt rate; VInt chans; VBool mulaw]) =>
+      if track_valid c rate chans then Some (XTrack c rate chans mulaw) else None
+  | _ => None
+  end.
+
+Section Oracles.
+  Variable cred_valid : list Z -> bool.
 
   Definition cenc (c : codec) (x : cval) : json :=
     match c, x with
     | CDur, XDur d => JStr (dur_marshal d)
     | CSize, XSize n => JStr (size_marshal_m n)
     | CNet, XNet4 ip ones => JStr (ipnet4_string ip ones)
-    | CNet, XNet6 x => JStr (net6_print x)
+    | CNet, XNet6 ip ones => JStr (ipnet6_string ip ones)
     | CCred, XCred s => JStr s
     | CEnum e, XEnum v => JStr (enum_marshal e v)
     | CTransports, XTrans p => JArr (map JStr (transports_marshal p))
-    | CTrack, XTrack x => track_enc x
+    | CTrack, XTrack c r n m => track_enc c r n m
     | _, _ => JNull
     end.
 
   Definition jstr (j : json) : option (list Z) := match j with JStr s => Some s | _ => None end.
 
+  (* the string-based codecs decode through `var in string; jsonwrapper.Unmarshal(b, &in)` (or an alias of
+     a fresh string): JSON null leaves the string empty *)
+  Definition jtext (j : json) : option (list Z) :=
+    match j with JStr s => Some s | JNull => Some [] | _ => None end.
+
   Definition cdec (c : codec) (j : json) : option cval :=
-    match c, j with
-    | CDur, JStr s => option_map XDur (dur_unmarshal s)
-    | CSize, JStr s => match size_unmarshal_m s with TBVal n => Some (XSize n) | _ => None end
-    | CNet, JStr s =>
-        match ipnet_unmarshal s with
-        | NVal ip n => Some (XNet4 ip n)
-        | NV6 => option_map XNet6 (net6_parse s)
-        | NErr => None
+    match c with
+    | CDur => match jtext j with Some s => option_map XDur (dur_unmarshal s) | None => None end
+    | CSize => match jtext j with
+               | Some s => match size_unmarshal_m s with TBVal n => Some (XSize n) | _ => None end
+               | None => None
+               end
+    | CNet => match jtext j with
+              | Some s =>
+                  match ipnet_unmarshal_full s with
+                  | NF4 ip n => Some (XNet4 ip n)
+                  | NF6 ip n => Some (XNet6 ip n)
+                  | NFErr => None
+                  end
+              | None => None
+              end
+    | CCred => match jtext j with Some s => if cred_valid s then Some (XCred s) else None | None => None end
+    | CEnum e => match jtext j with Some s => option_map XEnum (enum_unmarshal e s) | None => None end
+    | CTransports =>
+        match j with
+        | JArr l =>
+            match mapM jstr l with
+            | Some ss => option_map XTrans (transports_unmarshal ss (false, false, false))
+            | None => None
+            end
+        | _ => None
         end
-    | CCred, JStr s => if cred_valid s then Some (XCred s) else None
-    | CEnum e, JStr s => option_map XEnum (enum_unmarshal e s)
-    | CTransports, JArr l =>
-        match mapM jstr l with
-        | Some ss => option_map XTrans (transports_unmarshal ss (false, false, false))
-        | None => None
-        end
-    | CTrack, _ => option_map XTrack (track_dec j)
-    | _, _ => None
+    | CTrack => track_dec j
+    | CUnknown _ => None
     end.
 
   Definition cwf (c : codec) (x : cval) : Prop :=
@@ -70,18 +138,26 @@ Section Oracles.
     | CDur, XDur d => - two63 < d < two63
     | CSize, XSize n => 0 <= n < two64
     | CNet, XNet4 ip ones => ipnet4_wf ip ones = true
-    | CNet, XNet6 _ => True
+    | CNet, XNet6 ip ones => net6_wf ip ones = true
     | CCred, XCred s => cred_valid s = true
     | CEnum e, XEnum v => In v (enum_values e)
     | CTransports, XTrans _ => True
-    | CTrack, XTrack _ => True
+    | CTrack, XTrack c r n _ =>
+        valid_utf8 c = true /\ int64_lo <= r <= int64_hi /\ int64_lo <= n <= int64_hi /\ track_valid c r n = true
     | CUnknown _, _ => True
     | _, _ => False
     end.
-
-  Definition czero (c : codec) : cval :=
-    match c with
-    | CDur => XDur 0 | CSize => XSize 0 | CNet => XNet4 [] 0 | CCred => XCred [] | CEnum _ => XEnum (EInt 0)
-    | CTransports => XTrans (false, false, false) | CTrack | CUnknown _ => XUnknown
-    end.
 End Oracles.
+
+(* ---- decidable equality of codec values (used by the correspondence check only) *)
+Definition cval_eqb (a b : cval) : bool :=
+  match a, b with
+  | XDur x, XDur y | XSize x, XSize y => x =? y
+  | XNet4 i1 o1, XNet4 i2 o2 | XNet6 i1 o1, XNet6 i2 o2 => str_eqb i1 i2 && (o1 =? o2)
+  | XCred x, XCred y => str_eqb x y
+  | XEnum x, XEnum y => eval_eqb x y
+  | XTrans (a1, a2, a3), XTrans (b1, b2, b3) => Bool.eqb a1 b1 && Bool.eqb a2 b2 && Bool.eqb a3 b3
+  | XTrack c1 r1 n1 m1, XTrack c2 r2 n2 m2 => str_eqb c1 c2 && (r1 =? r2) && (n1 =? n2) && Bool.eqb m1 m2
+  | XUnknown, XUnknown => true
+  | _, _ => false
+  end.
